@@ -18,6 +18,14 @@ PROPS = {
 def sh(cmd, **kw): return subprocess.run(cmd, shell=True, capture_output=True, text=True, **kw)
 resf={'1':'/verif/seeded/REFACTOR_RESULTS.json','2':'/verif/seeded/REFACTOR2_RESULTS.json','3':'/verif/seeded/REFACTOR3_RESULTS.json','4':'/verif/seeded/REFACTOR4_RESULTS.json','5':'/verif/seeded/REFACTOR5_RESULTS.json'}[ROUND]
 res=json.load(open(resf)) if os.path.exists(resf) else {}
+# suite outcome per refactoring from an earlier evaluation of the same patch (SKIP_SUITE=1 reuses it)
+SUITE_KNOWN={}
+for f in glob.glob('/verif/seeded/REFACTOR*_BASELINE.json')+glob.glob('/verif/seeded/REFACTOR*_SUITE.json'):
+    try:
+        for k,v in json.load(open(f)).items():
+            if isinstance(v,dict) and 'suite_passes' in v: SUITE_KNOWN[k]=v['suite_passes']
+            elif isinstance(v,bool): SUITE_KNOWN[k]=v
+    except Exception: pass
 for area in AREAS:
     src=SRCPFX+area
     wt=f'/tmp/evalrf{ROUND}_{area}'; ev=f'/tmp/evalrfv{ROUND}_{area}'
@@ -36,13 +44,24 @@ for area in AREAS:
         if a.returncode!=0:
             res[name]={'error':'patch does not apply: '+a.stderr[-200:]}; continue
         env='GOFLAGS=-mod=mod GOPROXY=off GOSUMDB=off GOTOOLCHAIN=local GOWORK=off'
-        b=sh(f'cd {wt} && {env} go build ./... && {env} go test -vet=off -count=1 $(go list ./... | grep -v /out) 2>&1 | tail -3', timeout=1800)
-        suite_ok = b.returncode==0 and 'FAIL' not in b.stdout
+        if os.environ.get('SKIP_SUITE') and name in SUITE_KNOWN:
+            suite_ok = SUITE_KNOWN[name]      # the patch is unchanged since the pinned suite was run on it
+        else:
+            b=sh(f'cd {wt} && {env} go build ./... && {env} go test -vet=off -count=1 $(go list ./... | grep -v /out) 2>&1 | tail -3', timeout=1800)
+            suite_ok = b.returncode==0 and 'FAIL' not in b.stdout
         alarms={}
+        # one process for all properties of the area: the repository is loaded once and the cursor engine's results are shared
+        r=sh(f'{PC} -props {",".join(PROPS[area])} -repo {wt} -verif {ev}', timeout=3600)
+        cur=[]; seen=set()
+        for l in r.stdout.splitlines():
+            if l.startswith('BATCH property='):
+                p=l.split('property=')[1].split()[0]; code=int(l.split('exit=')[1]); seen.add(p)
+                if code!=0: alarms[p]=cur[:4]
+                cur=[]
+            elif ('VIOLATED' in l or 'UNDECIDED' in l or 'BROKEN' in l) and not l.startswith('VIOLATION'):
+                cur.append(l.strip()[:300])
         for p in PROPS[area]:
-            r=sh(f'{PC} -prop {p} -tier quick -repo {wt} -verif {ev}', timeout=1800)
-            if r.returncode!=0:
-                alarms[p]=[l.strip()[:300] for l in r.stdout.splitlines() if ('VIOLATED' in l or 'UNDECIDED' in l or 'CHECK-BROKEN' in l or 'BROKEN' in l)][:4]
+            if p not in seen: alarms[p]=(cur[:4] or ['CHECK-BROKEN: no verdict (the analyser ended early)'])
         res[name]={'area':area,'round':int(ROUND),'suite_passes':suite_ok,'checks_run':PROPS[area],'alarms':alarms}
         print(name, 'suite_ok' if suite_ok else 'SUITE-FAILS', 'ALARMS '+json.dumps(alarms)[:600] if alarms else 'silent', flush=True)
         json.dump(res, open(resf,'w'), indent=1, sort_keys=True)
